@@ -163,7 +163,20 @@ def _sym_ops_tables(cell, symprec=1e-5):
                     break
             if mul[h, g] >= 0:
                 rep_err = max(rep_err, float(np.abs(R[mul[h, g]] - R[h] @ R[g]).max()), float(np.abs(R[g] @ Ri[g] - np.eye(3)).max()))
-    return np.array(rots), np.array(R), np.array(Ri), perm, np.array(Rp), np.array(Rpi), mul, rep_err
+    # point group (dielectric tensor): multiplication table on the distinct rotations
+    ptg = np.array(ptg)
+    npg = len(ptg)
+    mulp = -np.ones((npg, npg), dtype=int)
+    for h in range(npg):
+        for g in range(npg):
+            rr = ptg[h] @ ptg[g]
+            for x in range(npg):
+                if (ptg[x] == rr).all():
+                    mulp[h, g] = x
+                    break
+            if mulp[h, g] >= 0:
+                rep_err = max(rep_err, float(np.abs(Rp[mulp[h, g]] - Rp[h] @ Rp[g]).max()), float(np.abs(Rp[g] @ Rpi[g] - np.eye(3)).max()))
+    return np.array(rots), np.array(R), np.array(Ri), perm, np.array(Rp), np.array(Rpi), mul, rep_err, ptg, mulp
 
 
 def main(run):
@@ -255,11 +268,14 @@ def main(run):
         sc = max(1.0, max(float(np.abs(v).max()) for v in plain.values()))
 
         # ---- symmetrisation of Born charges / dielectric tensor: correspondence + projection oracle
-        rots, R, Ri, perm, Rp, Rpi, mul, rep_err = _sym_ops_tables(prim)
+        rots, R, Ri, perm, Rp, Rpi, mul, rep_err, ptg, mulp = _sym_ops_tables(prim)
         run.count("representation hypothesis R(hg)=R(h)R(g), R R^-1 = 1 checked (max err %.0e)" % (10 ** np.ceil(np.log10(max(rep_err, 1e-17)))), section="correspondence")
-        if (mul < 0).any() or rep_err > 1e-9:
+        if (mul < 0).any() or (mulp < 0).any() or rep_err > 1e-9:
             run.broke("correspondence", "symmetry operations do not form a group table / Cartesian rotations are not a representation (err %.3g)" % rep_err, info0)
             mul = np.maximum(mul, 0)
+            mulp = np.maximum(mulp, 0)
+        lines.append("groupwf 1 %d %s %s %s" % (len(ptg), U.ints(ptg), U.ints(np.zeros(len(ptg), dtype=int)), U.ints(mulp)))
+        meta.append(("group-certificate", info0, lambda line: None if line == "true" else "groupWf = %s on the point-group operations" % line))
         lines.append("groupwf %d %d %s %s %s" % (npa, len(R), U.ints(rots), U.ints(perm), U.ints(mul)))
         meta.append(("group-certificate", info0, lambda line: None if line == "true" else "groupWf = %s on the implementation's operations" % line))
         lines.append("symborns %d %d %s %s %s %s" % (npa, len(R), U.flat(R), U.flat(Ri), U.ints(perm), U.flat(born0)))
